@@ -72,6 +72,31 @@ def frontier(ctx, depth):
                   what='a barline does not keep its type / free text is not reproduced verbatim')
 
 
+    file_entry(ctx)
+
+
+def file_entry(ctx):
+    """the file entry point: a score read with load() keeps free-text cells verbatim, also characters that str.splitlines() would treat as line
+    boundaries (VT, FF, FS, GS, RS, NEL, U+2028, U+2029) - in a file the lines end where the file's own line ends are"""
+    import tempfile, os
+    import kernpy as kp
+    with tempfile.TemporaryDirectory(prefix='kernverif_c03_') as td:
+        for k, ch in enumerate(['\x0b', '\x0c', '\x1c', '\x1d', '\x1e', '\x85', '\u2028', '\u2029']):
+            for eol in ('\n', '\r\n'):
+                rows = [['**kern', '**text'], ['*clefG2', '*'], ['4c', 'a' + ch + 'b'], ['4d', 'end' + ch], ['4e', '!x' + ch + 'y'], ['*-', '*-']]
+                text = eol.join('\t'.join(r) for r in rows) + eol
+                path = os.path.join(td, 'f%d_%d.krn' % (k, len(eol)))
+                with open(path, 'w', encoding='utf-8', newline='') as f:
+                    f.write(text)
+                got = call(lambda: kp.dumps(kp.load(path)[0]))
+                want = {'ok': ''.join('\t'.join(r) + '\n' for r in rows)}
+                ctx.seen({'clause': 'file entry point', 'char': repr(ch), 'eol': repr(eol)}, True)
+                if got != want:
+                    ctx.fail({'clause': 'file entry point: free text verbatim', 'file_text': text, 'char': repr(ch)},
+                             'a score read from a file is not exported cell for cell (a character inside a cell was taken for a line boundary or dropped)',
+                             impl=got, expected=want['ok'])
+
+
 def replay(ctx, payload):
     explore(ctx, 'quick')
 
